@@ -338,7 +338,8 @@ def add_mutations(rng, c, profile):
             nq = len(set((i, c.fields["pt.%d" % pj][0] if True else 0, tuple(c.fields["pt.%d" % pj])) for i, _, pj in op["qs"]))
             nkeys = len(set((i, tuple(c.fields["pt.%d" % pj])) for i, _, pj in op["qs"]))
             if profile in ("c02", "c05", "c10"):
-                put(t, "value", [rng.randrange(nkeys), rng.choice([1, rf_nz(rng, p)])], "reject")
+                for kk in rng.sample(range(nkeys), min(nkeys, 6 if profile == "c02" else 2)):   # every position (capped)
+                    put(t, "value", [kk, rng.choice([1, rf_nz(rng, p)])], "reject")
                 if nkeys >= 2:
                     a, b = rng.sample(range(nkeys), 2)
                     put(t, "cancel", [a, b, rf_nz(rng, p)], "reject")
